@@ -1,9 +1,9 @@
 import Driver.Proto
-namespace Driver
+namespace Driver.C10
 open Scrapli
 
 /-- line-protocol handler for property C10 (arguments after the leading `c10` token) -/
 def handleC10 : List String → String
   | _ => "bad-op"
 
-end Driver
+end Driver.C10
